@@ -279,6 +279,7 @@ type Opts struct {
 	AnonUnionContainers bool // []Union / map[string]Union fields (gounions refuses them)
 	EnumUnexported bool // enums with unexported members
 	DashTags bool // some fields tagged json:"-"
+	TagOptions bool // json tag options omitempty / string (C02 only: the generated types cannot express them)
 	NoNamedRec bool // no `type Tree []Tree` (the SQL JSON validators refuse recursive named containers)
 	DataIgnore bool // some fields tagged gomacro-data:"ignore"
 }
@@ -451,6 +452,17 @@ func Random(id int, rng *rand.Rand, o Opts) *Prog {
 				case 2:
 					if o.DashTags {
 						fld.Tag = `json:"-"`
+					}
+				case 4, 5:
+					if o.TagOptions {
+						switch {
+						case t.K == "basic" && t.Name != "string" && rng.Intn(2) == 0:
+							fld.Tag = fmt.Sprintf(`json:"%s,string"`, strings.ToLower(fn))
+						case rng.Intn(2) == 0:
+							fld.Tag = `json:",omitempty"`
+						default:
+							fld.Tag = fmt.Sprintf(`json:"%s_o,omitempty" xml:"z"`, strings.ToLower(fn))
+						}
 					}
 				case 3:
 					if o.DataIgnore {
